@@ -3,6 +3,7 @@ import EpModel.Model.Ipv6Exts
 import EpModel.Lemmas.CodecNetAuth
 import EpModel.Lemmas.CodecNetRawExt
 import EpModel.Lemmas.Ext
+import EpModel.Model.Dec.Ip
 /-
   C06, readers vs slices: every `read` function (read programs of Model/Io.lean, namespace `Reads`,
   tied to the code by the `io.read.*` correspondence of C16) against the `from_slice` of the same
@@ -2050,6 +2051,544 @@ theorem runL_adv {α : Type} (p : LProg α) (pre b : Bytes) (m : Nat) (st : LSt)
     rw [this]
     simp only [Bool.false_eq_true, if_false]
     exact ih m _ hm (by simp [LSt.started])
+
+/-! ### the limited header readers, one header at a time -/
+
+theorem evalOnL_bind {α β : Type} (p : LProg α) (f : α → LProg β) (st : LSt) (b : Bytes) :
+    evalOnL (p.bind f) st b =
+      match evalOnL p st b with
+      | (.ok a, n, st') =>
+        ((evalOnL (f a) st' (b.drop n)).1, n + (evalOnL (f a) st' (b.drop n)).2.1,
+          (evalOnL (f a) st' (b.drop n)).2.2)
+      | (.error e, n, st') => (.error e, n, st') := by
+  induction p generalizing st b with
+  | done res =>
+    cases res with
+    | ok a => simp [LProg.bind, evalOnL]
+    | error s => simp [LProg.bind, evalOnL]
+  | read n k ih =>
+    simp only [LProg.bind, evalOnL]
+    by_cases hlim : st.maxLen - st.readLen < n
+    · simp only [if_pos hlim]
+    · simp only [if_neg hlim]
+      by_cases hn : n ≤ b.length
+      · simp only [if_pos hn]
+        rw [ih]
+        cases h : evalOnL (k (b.take n)) (st.adv n) (b.drop n) with
+        | mk r rest =>
+          obtain ⟨m, st'⟩ := rest
+          cases r with
+          | ok a => simp only [List.drop_drop, Nat.add_assoc]
+          | error e => simp only
+      · simp only [if_neg hn]
+  | start layer k ih =>
+    simp only [LProg.bind, evalOnL]
+    exact ih _ _
+
+/-- bookkeeping after a complete header of `len` bytes was read through `start_layer(layer)` -/
+def LSt.after (st : LSt) (layer : String) (len : Nat) : LSt :=
+  { maxLen := st.maxLen - st.readLen, readLen := len, layerOffset := st.layerOffset + st.readLen,
+    layer := layer, src := st.src }
+
+/-- a length error of a limited header read: the limit (`len`), its source, the layer and the offset of
+    the header are fixed; `required` is whatever the failing `read_exact` asked for -/
+def LimitErr (st : LSt) (layer : String) (le : LenErr) : Prop :=
+  le.len = st.maxLen - st.readLen ∧ le.src = st.src ∧ le.layer = layer ∧
+  le.off = st.layerOffset + st.readLen ∧ le.len < le.required
+
+theorem lrawext_step {β : Type} (f : Bytes → LProg β) (st : LSt) (s : Bytes)
+    (hR : st.maxLen - st.readLen ≤ s.length) :
+    (st.maxLen - st.readLen < rawextLen s →
+      ∃ le c st', evalOnL (LReads.rawext.bind f) st s = (.error (.len le), c, st') ∧
+        LimitErr st "Ipv6ExtHeader" le ∧ (8 ≤ st.maxLen - st.readLen → le.required = rawextLen s)) ∧
+    (rawextLen s ≤ st.maxLen - st.readLen →
+      evalOnL (LReads.rawext.bind f) st s =
+        ((evalOnL (f (s.take (rawextLen s))) (st.after "Ipv6ExtHeader" (rawextLen s)) (s.drop (rawextLen s))).1,
+         rawextLen s +
+          (evalOnL (f (s.take (rawextLen s))) (st.after "Ipv6ExtHeader" (rawextLen s)) (s.drop (rawextLen s))).2.1,
+         (evalOnL (f (s.take (rawextLen s))) (st.after "Ipv6ExtHeader" (rawextLen s)) (s.drop (rawextLen s))).2.2)) := by
+  have hlen : rawextLen s = 2 + (bAt s 1 * 8 + 6) := by unfold rawextLen; omega
+  rw [evalOnL_bind]
+  simp only [LReads.rawext, evalOnL, LSt.started, LSt.adv, LSt.lenErr, Nat.sub_zero, Nat.zero_add]
+  refine ⟨fun h => ?_, fun h => ?_⟩
+  · by_cases h2 : st.maxLen - st.readLen < 2
+    · rw [if_pos h2]
+      exact ⟨_, _, _, rfl, ⟨rfl, rfl, rfl, rfl, h2⟩, fun h8 => by omega⟩
+    · rw [if_neg h2, if_pos (by omega)]
+      simp only [bAt_take s 2 1 (by omega)]
+      rw [if_pos (by omega)]
+      exact ⟨_, _, _, rfl, ⟨rfl, rfl, rfl, rfl, by simp only; omega⟩, fun _ => by simp only; omega⟩
+  · rw [if_neg (by omega), if_pos (by omega)]
+    simp only [bAt_take s 2 1 (by omega)]
+    rw [if_neg (by omega), if_pos (by simp only [List.length_drop]; omega)]
+    simp only [← List.take_add, ← hlen, LSt.after, Nat.add_zero]
+
+theorem lfrag_step {β : Type} (f : Bytes → LProg β) (st : LSt) (s : Bytes)
+    (hR : st.maxLen - st.readLen ≤ s.length) :
+    (st.maxLen - st.readLen < 8 →
+      ∃ le c st', evalOnL (LReads.ipv6frag.bind f) st s = (.error (.len le), c, st') ∧
+        LimitErr st "Ipv6FragHeader" le ∧ le.required = 8) ∧
+    (8 ≤ st.maxLen - st.readLen →
+      evalOnL (LReads.ipv6frag.bind f) st s =
+        ((evalOnL (f (s.take 8)) (st.after "Ipv6FragHeader" 8) (s.drop 8)).1,
+         8 + (evalOnL (f (s.take 8)) (st.after "Ipv6FragHeader" 8) (s.drop 8)).2.1,
+         (evalOnL (f (s.take 8)) (st.after "Ipv6FragHeader" 8) (s.drop 8)).2.2)) := by
+  rw [evalOnL_bind]
+  simp only [LReads.ipv6frag, evalOnL, LSt.started, LSt.adv, LSt.lenErr, Nat.sub_zero, Nat.zero_add]
+  refine ⟨fun h => ?_, fun h => ?_⟩
+  · rw [if_pos h]
+    exact ⟨_, _, _, rfl, ⟨rfl, rfl, rfl, rfl, h⟩, rfl⟩
+  · rw [if_neg (by omega), if_pos (by omega)]
+    simp only [LSt.after, Nat.add_zero]
+
+theorem lauth_step {β : Type} (f : Bytes → LProg β) (st : LSt) (s : Bytes)
+    (hR : st.maxLen - st.readLen ≤ s.length) :
+    (st.maxLen - st.readLen < 12 →
+      ∃ le c st', evalOnL (LReads.auth.bind f) st s = (.error (.len le), c, st') ∧
+        LimitErr st "IpAuthHeader" le ∧ le.required = 12) ∧
+    (12 ≤ st.maxLen - st.readLen → bAt s 1 < 1 →
+      ∃ st', evalOnL (LReads.auth.bind f) st s = (.error (.other "err(zeropayloadlen)"), 12, st')) ∧
+    (12 ≤ st.maxLen - st.readLen → ¬ bAt s 1 < 1 → st.maxLen - st.readLen < authLen s →
+      ∃ le c st', evalOnL (LReads.auth.bind f) st s = (.error (.len le), c, st') ∧
+        LimitErr st "IpAuthHeader" le ∧ le.required = authLen s) ∧
+    (12 ≤ st.maxLen - st.readLen → ¬ bAt s 1 < 1 → authLen s ≤ st.maxLen - st.readLen →
+      evalOnL (LReads.auth.bind f) st s =
+        ((evalOnL (f (s.take (authLen s))) (st.after "IpAuthHeader" (authLen s)) (s.drop (authLen s))).1,
+         authLen s +
+          (evalOnL (f (s.take (authLen s))) (st.after "IpAuthHeader" (authLen s)) (s.drop (authLen s))).2.1,
+         (evalOnL (f (s.take (authLen s))) (st.after "IpAuthHeader" (authLen s)) (s.drop (authLen s))).2.2)) := by
+  have hlen : ¬ bAt s 1 < 1 → authLen s = 12 + (bAt s 1 - 1) * 4 := by unfold authLen; omega
+  rw [evalOnL_bind]
+  simp only [LReads.auth, evalOnL, LSt.started, LSt.adv, LSt.lenErr, Nat.sub_zero, Nat.zero_add]
+  refine ⟨fun h => ?_, fun h hz => ?_, fun h hz hr => ?_, fun h hz hr => ?_⟩
+  · rw [if_pos h]
+    exact ⟨_, _, _, rfl, ⟨rfl, rfl, rfl, rfl, h⟩, rfl⟩
+  · rw [if_neg (by omega), if_pos (by omega)]
+    simp only [bAt_take s 12 1 (by omega), if_pos hz, evalOnL]
+    exact ⟨_, rfl⟩
+  · rw [if_neg (by omega), if_pos (by omega)]
+    simp only [bAt_take s 12 1 (by omega), if_neg hz, evalOnL]
+    have := hlen hz
+    rw [if_pos (by omega)]
+    exact ⟨_, _, _, rfl, ⟨rfl, rfl, rfl, rfl, by show st.maxLen - st.readLen < 12 + (bAt s 1 - 1) * 4; omega⟩, this.symm⟩
+  · rw [if_neg (by omega), if_pos (by omega)]
+    simp only [bAt_take s 12 1 (by omega), if_neg hz, evalOnL]
+    have := hlen hz
+    rw [if_neg (by omega), if_pos (by simp only [List.length_drop]; omega)]
+    simp only [← List.take_add, ← this, LSt.after, LSt.adv, Nat.add_zero]
+
+/-! ### the limited extension chain reader against the struct-mode chain walk of the slice decoder
+  (`Dec.extsLoop … true …`, the model of `Ipv6Extensions::from_slice` inside `IpHeaders::from_slice`, C03/C06 `dec.*` correspondence) -/
+
+theorem lextsLoop_zero (free : List ExtKind) (got : List (ExtKind × Bytes)) :
+    LReads.extsLoop 0 free got = .done (.error "err(hbhnotatstart)") := by
+  rw [LReads.extsLoop]; simp
+
+theorem lextsLoop_none (next : Nat) (free : List ExtKind) (got : List (ExtKind × Bytes)) (h0 : next ≠ 0)
+    (hs : LReads.slot next free = none) :
+    LReads.extsLoop next free got = .done (.ok { got := got, next := next }) := by
+  rw [LReads.extsLoop]; simp [h0, hs]
+
+theorem lextsLoop_some (next : Nat) (free : List ExtKind) (got : List (ExtKind × Bytes)) (h0 : next ≠ 0)
+    (k : ExtKind) (hm : k ∈ free) (p : LProg Bytes) (hs : LReads.slot next free = some (⟨k, hm⟩, p)) :
+    LReads.extsLoop next free got =
+      p.bind fun b => LReads.extsLoop (bAt b 0) (free.erase k) (got ++ [(k, b)]) := by
+  rw [LReads.extsLoop]; simp [h0, hs]
+
+/-- the slot of `Ipv6Extensions` a kind of the reader's bookkeeping stands for -/
+def slotOf (sl : Dec.ExtSlots) : ExtKind → Option Dec.Win
+  | .hbh => sl.hbh
+  | .dst => sl.dest
+  | .rt => sl.routing
+  | .fdst => sl.finalDest
+  | .frag => sl.frag
+  | .auth => sl.auth
+
+/-- the bytes the reader gathered for a kind of header (as the driver of C16 looks them up) -/
+def lookupGot (got : List (ExtKind × Bytes)) (k : ExtKind) : Option Bytes :=
+  (got.find? fun p => p.1 == k).map (·.2)
+
+/-- what the reader gathered for each kind is what the window in the same slot of the struct-mode
+    slice decoder covers -/
+def GotMatch (b : Bytes) (got : List (ExtKind × Bytes)) (sl : Dec.ExtSlots) : Prop :=
+  ∀ k, lookupGot got k = (slotOf sl k).map fun w => sub b w.o w.l
+
+theorem lookupGot_snoc (got : List (ExtKind × Bytes)) (k k' : ExtKind) (g : Bytes)
+    (hk : lookupGot got k = none) :
+    lookupGot (got ++ [(k, g)]) k' = if k' = k then some g else lookupGot got k' := by
+  unfold lookupGot at hk ⊢
+  rw [List.find?_append]
+  by_cases h : k' = k
+  · subst h
+    rw [if_pos rfl]
+    have : got.find? (fun p => p.1 == k') = none := by
+      cases hf : got.find? (fun p => p.1 == k') with
+      | none => rfl
+      | some x => rw [hf] at hk; cases hk
+    simp [this]
+  · rw [if_neg h]
+    cases hf : got.find? (fun p => p.1 == k') with
+    | some x => simp
+    | none =>
+      have : ¬ (k == k') = true := by simpa using fun e => h e.symm
+      simp [this]
+
+/-- the reader's free list against the slots of the struct-mode decoder -/
+structure FreeInvW (free : List ExtKind) (sl : Dec.ExtSlots) : Prop where
+  nodup : free.Nodup
+  dst : .dst ∈ free ↔ sl.dest = none
+  rt : .rt ∈ free ↔ sl.routing = none
+  frag : .frag ∈ free ↔ sl.frag = none
+  auth : .auth ∈ free ↔ sl.auth = none
+  fdst : .fdst ∈ free ↔ sl.finalDest = none
+
+/-- the kind a destination options (60) / routing (43) header is stored as -/
+def rawKind (nh : Nat) (sl : Dec.ExtSlots) : ExtKind :=
+  if nh = 60 then (if sl.routing.isSome then .fdst else .dst) else .rt
+
+theorem lslot_raw_stop {free : List ExtKind} {sl : Dec.ExtSlots} (hi : FreeInvW free sl) (nh : Nat)
+    (hn : nh = 60 ∨ nh = 43) (hf : Dec.rawFits nh sl = false) : LReads.slot nh free = none := by
+  unfold Dec.rawFits at hf
+  rcases hn with rfl | rfl
+  · simp only [if_true] at hf
+    by_cases hr : sl.routing.isSome
+    · have h1 : .rt ∉ free := fun h => by have := hi.rt.1 h; rw [this] at hr; cases hr
+      simp only [if_pos hr] at hf
+      have h2 : .fdst ∉ free := fun h => by have := hi.fdst.1 h; rw [this] at hf; simp at hf
+      simp [LReads.slot, h1, h2]
+    · have h1 : .rt ∈ free := hi.rt.2 (by simpa using hr)
+      simp only [if_neg hr] at hf
+      have h2 : .dst ∉ free := fun h => by have := hi.dst.1 h; rw [this] at hf; simp at hf
+      simp [LReads.slot, h1, h2]
+  · simp only [show ¬ ((43 : Nat) = 60) by omega, if_false] at hf
+    have h1 : .rt ∉ free := fun h => by have := hi.rt.1 h; rw [this] at hf; simp at hf
+    simp [LReads.slot, h1]
+
+theorem lslot_raw_go {free : List ExtKind} {sl : Dec.ExtSlots} (hi : FreeInvW free sl) (nh : Nat)
+    (hn : nh = 60 ∨ nh = 43) (hf : Dec.rawFits nh sl = true) :
+    ∃ hm, LReads.slot nh free = some (⟨rawKind nh sl, hm⟩, LReads.rawext) ∧ slotOf sl (rawKind nh sl) = none := by
+  unfold Dec.rawFits at hf
+  unfold rawKind
+  rcases hn with rfl | rfl
+  · simp only [if_true] at hf ⊢
+    by_cases hr : sl.routing.isSome
+    · have h1 : .rt ∉ free := fun h => by have := hi.rt.1 h; rw [this] at hr; cases hr
+      simp only [if_pos hr] at hf ⊢
+      have hn : sl.finalDest = none := by simpa using hf
+      have h2 : .fdst ∈ free := hi.fdst.2 hn
+      exact ⟨h2, by simp [LReads.slot, h1, h2], hn⟩
+    · have h1 : .rt ∈ free := hi.rt.2 (by simpa using hr)
+      simp only [if_neg hr] at hf ⊢
+      have hn : sl.dest = none := by simpa using hf
+      have h2 : .dst ∈ free := hi.dst.2 hn
+      exact ⟨h2, by simp [LReads.slot, h1, h2], hn⟩
+  · simp only [show ¬ ((43 : Nat) = 60) by omega, if_false] at hf ⊢
+    have hn : sl.routing = none := by simpa using hf
+    have h1 : .rt ∈ free := hi.rt.2 hn
+    exact ⟨h1, by simp [LReads.slot, h1], hn⟩
+
+theorem lslot_frag_stop {free : List ExtKind} {sl : Dec.ExtSlots} (hi : FreeInvW free sl)
+    (hf : sl.frag.isSome = true) : LReads.slot 44 free = none := by
+  have h1 : .frag ∉ free := fun h => by have := hi.frag.1 h; rw [this] at hf; cases hf
+  simp [LReads.slot, h1]
+
+theorem lslot_frag_go {free : List ExtKind} {sl : Dec.ExtSlots} (hi : FreeInvW free sl)
+    (hf : ¬ sl.frag.isSome = true) :
+    ∃ hm, LReads.slot 44 free = some (⟨.frag, hm⟩, LReads.ipv6frag) ∧ sl.frag = none := by
+  have hn : sl.frag = none := by simpa using hf
+  have h1 : .frag ∈ free := hi.frag.2 hn
+  exact ⟨h1, by simp [LReads.slot, h1], hn⟩
+
+theorem lslot_auth_stop {free : List ExtKind} {sl : Dec.ExtSlots} (hi : FreeInvW free sl)
+    (hf : sl.auth.isSome = true) : LReads.slot 51 free = none := by
+  have h1 : .auth ∉ free := fun h => by have := hi.auth.1 h; rw [this] at hf; cases hf
+  simp [LReads.slot, h1]
+
+theorem lslot_auth_go {free : List ExtKind} {sl : Dec.ExtSlots} (hi : FreeInvW free sl)
+    (hf : ¬ sl.auth.isSome = true) :
+    ∃ hm, LReads.slot 51 free = some (⟨.auth, hm⟩, LReads.auth) ∧ sl.auth = none := by
+  have hn : sl.auth = none := by simpa using hf
+  have h1 : .auth ∈ free := hi.auth.2 hn
+  exact ⟨h1, by simp [LReads.slot, h1], hn⟩
+
+theorem lslot_other (free : List ExtKind) (n : Nat) (h60 : n ≠ 60) (h43 : n ≠ 43) (h44 : n ≠ 44)
+    (h51 : n ≠ 51) : LReads.slot n free = none := by
+  simp [LReads.slot, h60, h43, h44, h51]
+
+theorem GotMatch.store {b : Bytes} {got : List (ExtKind × Bytes)} {sl sl' : Dec.ExtSlots}
+    (hg : GotMatch b got sl) (k : ExtKind) (w : Dec.Win) (hnone : slotOf sl k = none)
+    (hs : ∀ k', slotOf sl' k' = if k' = k then some w else slotOf sl k') :
+    GotMatch b (got ++ [(k, sub b w.o w.l)]) sl' := by
+  intro k'
+  have hk : lookupGot got k = none := by rw [hg k, hnone]; rfl
+  rw [lookupGot_snoc got k k' _ hk, hs k']
+  by_cases h : k' = k
+  · simp [h]
+  · simp [h, hg k']
+
+theorem slotOf_rawStore (nh : Nat) (hn : nh = 60 ∨ nh = 43) (sl : Dec.ExtSlots) (w : Dec.Win) (k' : ExtKind) :
+    slotOf (Dec.rawStore nh sl w) k' = if k' = rawKind nh sl then some w else slotOf sl k' := by
+  unfold Dec.rawStore rawKind
+  rcases hn with rfl | rfl
+  · by_cases hr : sl.routing.isSome
+    · simp only [if_true, if_pos hr]; cases k' <;> simp [slotOf]
+    · simp only [if_true, if_neg hr]; cases k' <;> simp [slotOf]
+  · simp only [show ¬ ((43 : Nat) = 60) by omega, if_false]; cases k' <;> simp [slotOf]
+
+theorem slotOf_fragStore (sl : Dec.ExtSlots) (w : Dec.Win) (k' : ExtKind) :
+    slotOf (Dec.fragStore sl w) k' = if k' = .frag then some w else slotOf sl k' := by
+  unfold Dec.fragStore; cases k' <;> simp [slotOf]
+
+theorem slotOf_authStore (sl : Dec.ExtSlots) (w : Dec.Win) (k' : ExtKind) :
+    slotOf (Dec.authStore sl w) k' = if k' = .auth then some w else slotOf sl k' := by
+  unfold Dec.authStore; cases k' <;> simp [slotOf]
+
+/-- the free list after the reader filled slot `k`, against the slots after the decoder stored there -/
+theorem FreeInvW.store {free : List ExtKind} {sl sl' : Dec.ExtSlots} (hi : FreeInvW free sl) (k : ExtKind)
+    (_hk : k ≠ .hbh) (w : Dec.Win)
+    (hs : ∀ k', slotOf sl' k' = if k' = k then some w else slotOf sl k') :
+    FreeInvW (free.erase k) sl' := by
+  have hn := hi.nodup
+  have key : ∀ k', k' ≠ .hbh → ((k' ∈ free ↔ slotOf sl k' = none) →
+      (k' ∈ free.erase k ↔ slotOf sl' k' = none)) := by
+    intro k' _ h
+    rw [mem_erase_iff hn, hs k']
+    by_cases e : k' = k
+    · simp [e]
+    · simp [e, h]
+  exact ⟨hn.erase _, key .dst (by decide) hi.dst, key .rt (by decide) hi.rt, key .frag (by decide) hi.frag,
+    key .auth (by decide) hi.auth, key .fdst (by decide) hi.fdst⟩
+
+theorem FreeInvW.init (hbh : Option Dec.Win) :
+    FreeInvW [.dst, .rt, .frag, .auth, .fdst]
+      { hbh := hbh, dest := none, routing := none, finalDest := none, frag := none, auth := none } := by
+  refine ⟨by decide, ?_, ?_, ?_, ?_, ?_⟩ <;> simp
+
+/-- names of the layers / length sources as `LimitedReader` and the drivers print them -/
+def layerText : Dec.Layer → String
+  | .ipHeader => "IpHeader"
+  | .ipv4Header => "Ipv4Header"
+  | .ipv4Packet => "Ipv4Packet"
+  | .ipAuthHeader => "IpAuthHeader"
+  | .ipv6Header => "Ipv6Header"
+  | .ipv6Packet => "Ipv6Packet"
+  | .ipv6ExtHeader => "Ipv6ExtHeader"
+  | .ipv6FragHeader => "Ipv6FragHeader"
+  | _ => "(not an IP layer)"
+
+def srcText : Dec.LenSource → String
+  | .slice => "Slice"
+  | .macsecShortLength => "MacsecShortLength"
+  | .ipv4HeaderTotalLen => "Ipv4HeaderTotalLen"
+  | .ipv6HeaderPayloadLen => "Ipv6HeaderPayloadLen"
+  | .udpHeaderLen => "UdpHeaderLen"
+  | .tcpHeaderLen => "TcpHeaderLen"
+  | .arpAddrLengths => "ArpAddrLengths"
+
+/-- a length error of the limited reader against the length error `e` of the slice decoder (offsets of
+    `e` relative to `base`): same limit, source, layer and offset; the same `required_len` except on an
+    IPv6 raw extension header with fewer than 8 bytes left (the reader asks for 2 bytes first, the slice
+    decoder for 8) -/
+def LenErrAgrees (src : String) (base : Nat) (e : Dec.LenError) (le : LenErr) : Prop :=
+  le.len = e.len ∧ le.src = src ∧ le.layer = layerText e.layer ∧ le.off = base + e.off ∧
+  le.len < le.required ∧ (8 ≤ e.len ∨ e.layer ≠ .ipv6ExtHeader → le.required = e.req)
+
+/-- outcome of the struct-mode chain walk of the slice decoder (`out`) against the outcome of the limited
+    chain reader (`res`) that stands at offset `o` of `b` -/
+def LChainRel (b : Bytes) (src : String) (base o : Nat) (got : List (ExtKind × Bytes)) (out : Dec.ExtsOut)
+    (res : Except LErr Reads.ExtsRead × Nat × LSt) : Prop :=
+  match out.stop with
+  | none =>
+    ∃ got', res.1 = .ok { got := got', next := out.next } ∧ o + res.2.1 = out.rest.o ∧
+      GotMatch b got' out.slots ∧ gathered got' = gathered got ++ sub b o res.2.1
+  | some (.len e, _) => ∃ le, res.1 = .error (.len le) ∧ LenErrAgrees src base e le
+  | some (.hopByHop, _) => res.1 = .error (.other "err(hbhnotatstart)")
+  | some (.authZero, _) => res.1 = .error (.other "err(zeropayloadlen)")
+
+theorem sub_sub_append (b : Bytes) (o n m : Nat) : sub b o n ++ sub b (o + n) m = sub b o (n + m) := by
+  unfold sub
+  rw [List.take_add, List.drop_drop]
+
+theorem LChainRel.lift (b : Bytes) (src : String) (base o len : Nat) (got : List (ExtKind × Bytes))
+    (k : ExtKind) (out : Dec.ExtsOut) (r : Except LErr Reads.ExtsRead × Nat × LSt)
+    (h : LChainRel b src base (o + len) (got ++ [(k, sub b o len)]) out r) :
+    LChainRel b src base o got out (r.1, len + r.2.1, r.2.2) := by
+  unfold LChainRel at h ⊢
+  cases hs : out.stop with
+  | none =>
+    rw [hs] at h
+    obtain ⟨got', h1, h2, h3, h4⟩ := h
+    refine ⟨got', h1, by simp only; omega, h3, ?_⟩
+    rw [h4, gathered_snoc, List.append_assoc, sub_sub_append]
+  | some x =>
+    rw [hs] at h
+    obtain ⟨e, ly⟩ := x
+    cases e <;> exact h
+
+theorem bAt_drop (b : Bytes) (o i : Nat) : bAt (b.drop o) i = Dec.memOf b (o + i) := by
+  simp [bAt, Dec.memOf, List.getD_eq_getElem?_getD, List.getElem?_drop]
+
+theorem rawextLen_drop (b : Bytes) (o : Nat) : rawextLen (b.drop o) = (Dec.memOf b (o + 1) + 1) * 8 := by
+  unfold rawextLen; rw [bAt_drop]
+
+theorem authLen_drop (b : Bytes) (o : Nat) : authLen (b.drop o) = (Dec.memOf b (o + 1) + 2) * 4 := by
+  unfold authLen; rw [bAt_drop]
+
+theorem bAt_sub_zero (b : Bytes) (o len : Nat) (h : 0 < len) : bAt (sub b o len) 0 = Dec.memOf b o := by
+  unfold sub; rw [bAt_take _ _ _ h, bAt_drop]; rfl
+
+theorem LChainRel.done (b : Bytes) (src : String) (base o l : Nat) (got : List (ExtKind × Bytes))
+    (nh : Nat) (frag : Bool) (sl : Dec.ExtSlots) (st : LSt) (hg : GotMatch b got sl) :
+    LChainRel b src base o got (Dec.extsDone nh frag sl o l)
+      (evalOnL (.done (.ok { got := got, next := nh })) st (b.drop o)) := by
+  unfold LChainRel Dec.extsDone
+  simp only [evalOnL]
+  exact ⟨got, rfl, rfl, hg, by simp [sub]⟩
+
+theorem lchain_rel (b : Bytes) (base l0 nh : Nat) (frag : Bool) (sl : Dec.ExtSlots) (o l : Nat) :
+    ∀ (free : List ExtKind) (got : List (ExtKind × Bytes)) (st : LSt),
+      FreeInvW free sl → GotMatch b got sl →
+      st.maxLen - st.readLen = l → st.readLen ≤ st.maxLen → st.layerOffset + st.readLen = o →
+      o + l ≤ b.length → l ≤ l0 → o = base + (l0 - l) →
+      LChainRel b st.src base o got (Dec.extsLoop (Dec.memOf b) true l0 nh frag sl o l)
+        (evalOnL (LReads.extsLoop nh free got) st (b.drop o)) := by
+  fun_induction Dec.extsLoop (Dec.memOf b) true l0 nh frag sl o l
+  case case1 frag sl o l =>
+    intro free got st hi hg h1 h2 h3 h4 h5 h6
+    rw [lextsLoop_zero]
+    simp only [LChainRel, Dec.extsFail, evalOnL]
+  case case2 nh frag sl o l h0 hn hfit =>
+    intro free got st hi hg h1 h2 h3 h4 h5 h6
+    have hf : Dec.rawFits nh sl = false := by simpa using hfit.2
+    rw [lextsLoop_none _ _ _ h0 (lslot_raw_stop hi nh hn hf)]
+    exact LChainRel.done b _ base o l got nh frag sl st hg
+  case case3 nh frag sl o l h0 hn hfit h8 =>
+    intro free got st hi hg h1 h2 h3 h4 h5 h6
+    have hf : Dec.rawFits nh sl = true := by simpa using hfit
+    obtain ⟨hm, hs, _⟩ := lslot_raw_go hi nh hn hf
+    rw [lextsLoop_some _ _ _ h0 _ hm _ hs]
+    have hR : st.maxLen - st.readLen ≤ (b.drop o).length := by simp only [List.length_drop]; omega
+    have hlen : 8 ≤ rawextLen (b.drop o) := by unfold rawextLen; omega
+    obtain ⟨le, c, st', he, hle, hreq⟩ := (lrawext_step _ st (b.drop o) hR).1 (by omega)
+    rw [he]
+    simp only [LChainRel, Dec.extsFail, Dec.extLenErr]
+    obtain ⟨e1, e2, e3, e4, e5⟩ := hle
+    exact ⟨le, rfl, by simp only; omega, e2, e3, by simp only; omega, e5, fun h => by
+      rcases h with h | h
+      · simp only at h; omega
+      · exact absurd rfl h⟩
+  case case4 nh frag sl o l h0 hn hfit h8 hl =>
+    intro free got st hi hg h1 h2 h3 h4 h5 h6
+    have hf : Dec.rawFits nh sl = true := by simpa using hfit
+    obtain ⟨hm, hs, _⟩ := lslot_raw_go hi nh hn hf
+    rw [lextsLoop_some _ _ _ h0 _ hm _ hs]
+    have hR : st.maxLen - st.readLen ≤ (b.drop o).length := by simp only [List.length_drop]; omega
+    have hlen := rawextLen_drop b o
+    obtain ⟨le, c, st', he, hle, hreq⟩ := (lrawext_step _ st (b.drop o) hR).1 (by omega)
+    rw [he]
+    simp only [LChainRel, Dec.extsFail, Dec.extLenErr]
+    obtain ⟨e1, e2, e3, e4, e5⟩ := hle
+    exact ⟨le, rfl, by simp only; omega, e2, e3, by simp only; omega, e5, fun _ => by
+      simp only; rw [hreq (by omega), hlen]⟩
+  case case5 nh frag sl o l h0 hn hfit h8 hl ih =>
+    intro free got st hi hg h1 h2 h3 h4 h5 h6
+    have hf : Dec.rawFits nh sl = true := by simpa using hfit
+    obtain ⟨hm, hs, hnone⟩ := lslot_raw_go hi nh hn hf
+    rw [lextsLoop_some _ _ _ h0 _ hm _ hs]
+    have hR : st.maxLen - st.readLen ≤ (b.drop o).length := by simp only [List.length_drop]; omega
+    have hlen := rawextLen_drop b o
+    rw [(lrawext_step _ st (b.drop o) hR).2 (by omega), hlen, List.drop_drop]
+    have htk : (b.drop o).take ((Dec.memOf b (o + 1) + 1) * 8) = sub b o ((Dec.memOf b (o + 1) + 1) * 8) := rfl
+    rw [htk, bAt_sub_zero b o _ (by omega)]
+    apply LChainRel.lift b st.src base o _ got (rawKind nh sl)
+    exact ih _ _ (st.after "Ipv6ExtHeader" ((Dec.memOf b (o + 1) + 1) * 8))
+      (hi.store _ (by unfold rawKind; split <;> (try split) <;> decide) _ (slotOf_rawStore nh hn sl _))
+      (hg.store (rawKind nh sl) ⟨o, (Dec.memOf b (o + 1) + 1) * 8⟩ hnone (slotOf_rawStore nh hn sl _))
+      (by simp only [LSt.after]; omega) (by simp only [LSt.after]; omega) (by simp only [LSt.after]; omega)
+      (by omega) (by omega) (by omega)
+  case case6 frag sl o l hfs _ _ =>
+    intro free got st hi hg h1 h2 h3 h4 h5 h6
+    rw [lextsLoop_none _ _ _ (by decide) (lslot_frag_stop hi hfs.2)]
+    exact LChainRel.done b _ base o l got 44 frag sl st hg
+  case case7 frag sl o l hfs h8 _ _ =>
+    intro free got st hi hg h1 h2 h3 h4 h5 h6
+    obtain ⟨hm, hs, _⟩ := lslot_frag_go hi (by simpa using hfs)
+    rw [lextsLoop_some _ _ _ (by decide) _ hm _ hs]
+    have hR : st.maxLen - st.readLen ≤ (b.drop o).length := by simp only [List.length_drop]; omega
+    obtain ⟨le, c, st', he, hle, hreq⟩ := (lfrag_step _ st (b.drop o) hR).1 (by omega)
+    rw [he]
+    simp only [LChainRel, Dec.extsFail, Dec.extLenErr]
+    obtain ⟨e1, e2, e3, e4, e5⟩ := hle
+    exact ⟨le, rfl, by simp only; omega, e2, e3, by simp only; omega, e5, fun _ => hreq⟩
+  case case8 frag sl o l hfs h8 _ _ ih =>
+    intro free got st hi hg h1 h2 h3 h4 h5 h6
+    obtain ⟨hm, hs, hnone⟩ := lslot_frag_go hi (by simpa using hfs)
+    rw [lextsLoop_some _ _ _ (by decide) _ hm _ hs]
+    have hR : st.maxLen - st.readLen ≤ (b.drop o).length := by simp only [List.length_drop]; omega
+    rw [(lfrag_step _ st (b.drop o) hR).2 (by omega), List.drop_drop]
+    have htk : (b.drop o).take 8 = sub b o 8 := rfl
+    rw [htk, bAt_sub_zero b o _ (by omega)]
+    apply LChainRel.lift b st.src base o _ got .frag
+    exact ih _ _ (st.after "Ipv6FragHeader" 8)
+      (hi.store _ (by decide) _ (slotOf_fragStore sl _))
+      (hg.store .frag ⟨o, 8⟩ hnone (slotOf_fragStore sl _))
+      (by simp only [LSt.after]; omega) (by simp only [LSt.after]; omega) (by simp only [LSt.after]; omega)
+      (by omega) (by omega) (by omega)
+  case case9 frag sl o l has _ _ _ =>
+    intro free got st hi hg h1 h2 h3 h4 h5 h6
+    rw [lextsLoop_none _ _ _ (by decide) (lslot_auth_stop hi has.2)]
+    exact LChainRel.done b _ base o l got 51 frag sl st hg
+  case case10 frag sl o l has h12 _ _ _ =>
+    intro free got st hi hg h1 h2 h3 h4 h5 h6
+    obtain ⟨hm, hs, _⟩ := lslot_auth_go hi (by simpa using has)
+    rw [lextsLoop_some _ _ _ (by decide) _ hm _ hs]
+    have hR : st.maxLen - st.readLen ≤ (b.drop o).length := by simp only [List.length_drop]; omega
+    obtain ⟨le, c, st', he, hle, hreq⟩ := (lauth_step _ st (b.drop o) hR).1 (by omega)
+    rw [he]
+    simp only [LChainRel, Dec.extsFail, Dec.extLenErr]
+    obtain ⟨e1, e2, e3, e4, e5⟩ := hle
+    exact ⟨le, rfl, by simp only; omega, e2, e3, by simp only; omega, e5, fun _ => hreq⟩
+  case case11 frag sl o l has h12 hz _ _ _ =>
+    intro free got st hi hg h1 h2 h3 h4 h5 h6
+    obtain ⟨hm, hs, _⟩ := lslot_auth_go hi (by simpa using has)
+    rw [lextsLoop_some _ _ _ (by decide) _ hm _ hs]
+    have hR : st.maxLen - st.readLen ≤ (b.drop o).length := by simp only [List.length_drop]; omega
+    obtain ⟨st', he⟩ := (lauth_step _ st (b.drop o) hR).2.1 (by omega) (by rw [bAt_drop]; exact hz)
+    rw [he]
+    simp only [LChainRel, Dec.extsFail]
+  case case12 frag sl o l has h12 hz hl _ _ _ =>
+    intro free got st hi hg h1 h2 h3 h4 h5 h6
+    obtain ⟨hm, hs, _⟩ := lslot_auth_go hi (by simpa using has)
+    rw [lextsLoop_some _ _ _ (by decide) _ hm _ hs]
+    have hR : st.maxLen - st.readLen ≤ (b.drop o).length := by simp only [List.length_drop]; omega
+    have hlen := authLen_drop b o
+    obtain ⟨le, c, st', he, hle, hreq⟩ :=
+      (lauth_step _ st (b.drop o) hR).2.2.1 (by omega) (by rw [bAt_drop]; exact hz) (by omega)
+    rw [he]
+    simp only [LChainRel, Dec.extsFail, Dec.extLenErr]
+    obtain ⟨e1, e2, e3, e4, e5⟩ := hle
+    exact ⟨le, rfl, by simp only; omega, e2, e3, by simp only; omega, e5, fun _ => by
+      simp only; rw [hreq, hlen]⟩
+  case case13 frag sl o l has h12 hz hl _ _ _ ih =>
+    intro free got st hi hg h1 h2 h3 h4 h5 h6
+    obtain ⟨hm, hs, hnone⟩ := lslot_auth_go hi (by simpa using has)
+    rw [lextsLoop_some _ _ _ (by decide) _ hm _ hs]
+    have hR : st.maxLen - st.readLen ≤ (b.drop o).length := by simp only [List.length_drop]; omega
+    have hlen := authLen_drop b o
+    rw [(lauth_step _ st (b.drop o) hR).2.2.2 (by omega) (by rw [bAt_drop]; exact hz) (by omega), hlen,
+      List.drop_drop]
+    have htk : (b.drop o).take ((Dec.memOf b (o + 1) + 2) * 4) = sub b o ((Dec.memOf b (o + 1) + 2) * 4) := rfl
+    rw [htk, bAt_sub_zero b o _ (by omega)]
+    apply LChainRel.lift b st.src base o _ got .auth
+    exact ih _ _ (st.after "IpAuthHeader" ((Dec.memOf b (o + 1) + 2) * 4))
+      (hi.store _ (by decide) _ (slotOf_authStore sl _))
+      (hg.store .auth ⟨o, (Dec.memOf b (o + 1) + 2) * 4⟩ hnone (slotOf_authStore sl _))
+      (by simp only [LSt.after]; omega) (by simp only [LSt.after]; omega) (by simp only [LSt.after]; omega)
+      (by omega) (by omega) (by omega)
+  case case14 nh frag sl o l h0 hn h44 h51 =>
+    intro free got st hi hg h1 h2 h3 h4 h5 h6
+    rw [lextsLoop_none _ _ _ h0 (lslot_other free nh (fun h => hn (.inl h)) (fun h => hn (.inr h)) h44 h51)]
+    exact LChainRel.done b _ base o l got nh frag sl st hg
 
 end LimitedReaders
 
